@@ -787,7 +787,7 @@ ASSUMPTIONS = [
 EXPLANATION = "Classification precedence, order, der alignment, outputs and state annotation as per-function contracts."
 MANIFEST = {
     "category": "proof",
-    "text": "exitClass is executed symbolically for arbitrary prefix combinations, String-ness and emptiness of 1-3 symbols: each variable lands in exactly the list the statement's precedence gives (String constants/parameters in the string lists), declaration order is kept, der_states is aligned one-to-one with states, outputs are the output-prefixed states then algebraics. _ast_symbols_to_variables is verified for its list structure and StateAnnotator's three callbacks for the der-nesting counter and single marking; the copies flattening makes of one declaration (deepcopy through the real ast classes' hooks) own their prefix lists, so marking one instance's variable as a state leaves its siblings and the declaration alone. A bounded replay generates real models over prefix/type/der combinations. The flattening step of flatten_symbols (C07's contract: input/output survive only at top level, for every kind of type) is discharged here too.",
+    "text": "exitClass is executed symbolically for arbitrary prefix combinations, String-ness and emptiness of 1-3 symbols: each variable lands in exactly the list the statement's precedence gives (String constants/parameters in the string lists), declaration order is kept, der_states is aligned one-to-one with states, outputs are the output-prefixed states then algebraics. _ast_symbols_to_variables is verified for its list structure and StateAnnotator's three callbacks for the der-nesting counter and single marking; the copies flattening makes of one declaration (deepcopy through the real ast classes' hooks) own their prefix lists, so marking one instance's variable as a state leaves its siblings and the declaration alone. A bounded replay generates real models over prefix/type/der combinations. The flattening step of flatten_symbols (C07's contract: input/output survive only at top level, for every kind of type) is discharged here too. Generator.get_symbol leaves the generator-wide derivative table alone (frame condition, C18's harness).",
     "note": "Symbol counts enumerated up to 3; sorted() and the CasADi-side helpers are assumed; the walker's delivery (annotate_states, walk, handle_walk, skip_child for every node class and every field name) is under contract, its lift to whole trees is a hand induction; parsing of multi-keyword prefixes belongs to C04.",
     "technique": "contract-based deductive verification: whole-function symbolic execution with symbolic prefix membership, callee contracts, z3",
 }
